@@ -596,3 +596,14 @@ def finish(res, level="proof", checker_cmd=None):
             prop, res.tier, proof["obligations"], proof["discharged"], res.evaluations, time.time() - res.t0))
     sys.stdout.flush()
     return code
+
+
+def number_form(rng, v):
+    """the same integer in the forms a caller may pass it in: int, numpy integer, or a float / numpy float
+    holding exactly that integer (accepted by the constructors, which validate `x == int(x)`)"""
+    import numpy as np
+    forms = ["int", "int", "np.int64", "np.uint64"]
+    if float(v) == v and v < 2 ** 53:
+        forms += ["float", "np.float64"]
+    f = rng.choice(forms)
+    return {"int": int, "np.int64": np.int64, "np.uint64": np.uint64, "float": float, "np.float64": np.float64}[f](v)
